@@ -139,11 +139,11 @@ pub fn run(outdir: &Path, tier: &str, seed: u64, shards: usize, _replay: Option<
     // ---- (c) compiled: ID at plain / flattened-fragment / variant positions
     let schema2 = SchemaDoc {
         defs: vec![
-            TypeDef::Interface { name: "Node".into(), fields: vec![FieldDef::new("id", GType::named("ID")), FieldDef::new("idr", GType::nn(GType::named("ID")))] },
+            TypeDef::Interface { name: "Node".into(), fields: vec![FieldDef::new("id", GType::named("ID")), FieldDef::new("idr", GType::nn(GType::named("ID"))), FieldDef::new("tags", GType::list(GType::named("ID")))] },
             TypeDef::Object {
                 name: "Thing".into(),
                 implements: vec!["Node".into()],
-                fields: vec![FieldDef::new("id", GType::named("ID")), FieldDef::new("idr", GType::nn(GType::named("ID"))), FieldDef::new("name", GType::named("String"))],
+                fields: vec![FieldDef::new("id", GType::named("ID")), FieldDef::new("idr", GType::nn(GType::named("ID"))), FieldDef::new("tags", GType::list(GType::named("ID"))), FieldDef::new("name", GType::named("String"))],
             },
             TypeDef::Object {
                 name: "Query".into(),
@@ -163,7 +163,7 @@ pub fn run(outdir: &Path, tier: &str, seed: u64, shards: usize, _replay: Option<
     };
     let doc2 = QueryDoc {
         defs: vec![
-            QDef::Frag { name: "F".into(), on: "Thing".into(), sel: vec![Sel::field("id"), Sel::field("idr")] },
+            QDef::Frag { name: "F".into(), on: "Thing".into(), sel: vec![Sel::field("id"), Sel::field("idr"), Sel::field("tags")] },
             QDef::Op {
                 kind: OpKind::Query,
                 name: Some("Q".into()),
@@ -174,7 +174,7 @@ pub fn run(outdir: &Path, tier: &str, seed: u64, shards: usize, _replay: Option<
                     Sel::field("ids"),
                     Sel::field("mids"),
                     Sel::obj("thing", vec![Sel::Spread("F".into()), Sel::field("name")]),
-                    Sel::obj("node", vec![Sel::typename(), Sel::Inline { on: Some("Thing".into()), sub: vec![Sel::field("id"), Sel::field("idr")] }]),
+                    Sel::obj("node", vec![Sel::typename(), Sel::Inline { on: Some("Thing".into()), sub: vec![Sel::field("id"), Sel::field("idr"), Sel::field("tags")] }]),
                 ],
             },
         ],
@@ -258,30 +258,36 @@ pub fn run(outdir: &Path, tier: &str, seed: u64, shards: usize, _replay: Option<
         ];
         let list_start = vectors.len();
         let mut list_meta = vec![];
-        for nullable in [false, true] {
+        // position 0: plain (`ids: [ID!]!`, `mids: [ID]`); 1: `tags: [ID]` in a flattened fragment; 2: `tags: [ID]` in a variant
+        for (position, nullable) in [(0u32, false), (0, true), (1, true), (2, true)] {
             for inp in &list_inputs {
-                let mut payload = json!({"a": "x", "b": "y", "ids": ["i1", 2], "mids": [null, "m"], "thing": {"id": "t", "idr": "tr", "name": "n"}, "node": {"__typename": "Thing", "id": "v", "idr": "vr"}});
-                let key = if nullable { "mids" } else { "ids" };
+                let mut payload = json!({"a": "x", "b": "y", "ids": ["i1", 2], "mids": [null, "m"], "thing": {"id": "t", "idr": "tr", "tags": ["k"], "name": "n"}, "node": {"__typename": "Thing", "id": "v", "idr": "vr", "tags": ["k"]}});
+                let (obj, key): (&mut serde_json::Map<String, Value>, &str) = match position {
+                    0 => (payload.as_object_mut().unwrap(), if nullable { "mids" } else { "ids" }),
+                    1 => (payload["thing"].as_object_mut().unwrap(), "tags"),
+                    _ => (payload["node"].as_object_mut().unwrap(), "tags"),
+                };
                 match inp {
                     None => {
-                        payload.as_object_mut().unwrap().remove(key);
+                        obj.remove(key);
                     }
                     Some(v) => {
-                        payload.as_object_mut().unwrap().insert(key.to_string(), v.clone());
+                        obj.insert(key.to_string(), v.clone());
                     }
                 }
                 vectors.push((0usize, "resp".to_string(), serde_json::to_string(&payload).unwrap()));
-                list_meta.push((nullable, inp.clone(), payload));
+                list_meta.push((position, nullable, inp.clone(), payload));
             }
         }
         let results = if built { cons.run(&vectors) } else { vectors.iter().map(|_| "NOBIN".into()).collect() };
-        for ((nullable, inp, payload), line) in list_meta.iter().zip(results[list_start..].iter()) {
+        for ((position, nullable, inp, payload), line) in list_meta.iter().zip(results[list_start..].iter()) {
             let compiled = cons.status[0].is_ok();
             let (whole, field): (String, String) = if !compiled {
                 ("SNoCompile".into(), "SNoCompile".into())
             } else if let Some(js) = line.strip_prefix("OK ") {
                 let jv: Value = serde_json::from_str(js).unwrap_or(Value::Null);
-                (format!("(SOk {})", coq::json(&jv)), format!("(SOk {})", coq::json(&jv[if *nullable { "mids" } else { "ids" }])))
+                let field = match position { 0 => jv[if *nullable { "mids" } else { "ids" }].clone(), 1 => jv["thing"]["tags"].clone(), _ => jv["node"]["tags"].clone() };
+                (format!("(SOk {})", coq::json(&jv)), format!("(SOk {})", coq::json(&field)))
             } else if line.starts_with("ERR") {
                 ("SErr".into(), "SErr".into())
             } else {
@@ -290,8 +296,8 @@ pub fn run(outdir: &Path, tier: &str, seed: u64, shards: usize, _replay: Option<
             *dist.entry(format!("list/{}", field.split(' ').next().unwrap().trim_start_matches('('))).or_default() += 1;
             cases.push(Case {
                 coq: format!("(CList {} {} {} {})", coq::b(*nullable), coq::b(*nullable), coq::opt(inp, |v| coq::json(v)), field),
-                desc: json!({"kind": "list", "type": if *nullable { "[ID]" } else { "[ID!]!" }, "input": inp, "payload": payload, "observed": line}),
-                key: format!("list|{}|{:?}", nullable, inp),
+                desc: json!({"kind": "list", "position": (["plain", "flattened fragment", "variant"][*position as usize]), "type": if *nullable { "[ID]" } else { "[ID!]!" }, "input": inp, "payload": payload, "observed": line}),
+                key: format!("list|{}|{}|{:?}", position, nullable, inp),
                 nontrivial: true,
             });
             cases.push(Case {
@@ -350,7 +356,7 @@ pub fn run(outdir: &Path, tier: &str, seed: u64, shards: usize, _replay: Option<
         outdir,
         shards,
         json!({
-            "rule": "(a) both helpers called directly (streaming and buffered deserializer) on JSON of every kind, i64/u64 boundaries, floats, numeric-looking / empty / non-ASCII strings and seeded random numbers and strings; (b) every ID type expression up to list depth 2 (thorough 3) next to String/Int/custom-scalar fields and a non-ID field named `id`: attached helper and emitted Rust type; (c) compiled module with nullable and non-null ID at plain, flattened-fragment and variant positions x 18 inputs incl. key absent, each also compared with Serde.v as a whole-payload case.",
+            "rule": "(a) both helpers called directly (streaming and buffered deserializer) on JSON of every kind, i64/u64 boundaries, floats, numeric-looking / empty / non-ASCII strings and seeded random numbers and strings; (b) every ID type expression up to list depth 2 (thorough 3) next to String/Int/custom-scalar fields and a non-ID field named `id`: attached helper and emitted Rust type; (c) compiled module with nullable and non-null ID at plain, flattened-fragment and variant positions x 18 inputs incl. key absent, ID lists ([ID!]! / [ID] plain, [ID] in a flattened fragment and in a variant) x 16 inputs incl. null elements and a null list, each also compared with Serde.v as a whole-payload case.",
             "exhaustive": false,
             "distribution": dist,
             "samples": samples,
